@@ -2,6 +2,7 @@ package dbsim
 
 import (
 	"fmt"
+	"runtime"
 
 	"github.com/cilium/statedb"
 )
@@ -27,6 +28,7 @@ type simIter struct {
 	openWatch   <-chan struct{}      // open channel returned by the last Next (nil if none)
 	openAtRev   uint64               // committed table revision when openWatch was handed out
 	settledBefore bool               // table.settled before this iterator was created
+	ownHandle   bool                 // created through the "<handle>-it" DB handle
 	delivered   int
 }
 
@@ -301,7 +303,8 @@ func (s *Sim) IterStep(i int) {
 		if len(t.iters) >= 4 {
 			return
 		}
-		wtxn := s.DB.WriteTxn(t.tbl)
+		// (own DB handle: the tracker's later Close() commits under this name, so it can be paused without catching the collector)
+		wtxn := s.DB.NewHandle(s.Handle + "-it").WriteTxn(t.tbl)
 		s.open = wtxn
 		it, err := t.tbl.Changes(wtxn)
 		if err != nil {
@@ -311,7 +314,7 @@ func (s *Sim) IterStep(i int) {
 		}
 		s.iterSeq++
 		si := &simIter{name: fmt.Sprintf("%s#%d", t.name, s.iterSeq), it: it, table: t, creationRev: t.committed.Rev, createdIn: what,
-			replay: map[string]Obs{}, gotDelete: map[string][]uint64{}}
+			replay: map[string]Obs{}, gotDelete: map[string][]uint64{}, ownHandle: true}
 		if s.Rng.IntN(6) == 0 {
 			s.Logf("%s %s.Changes() in a transaction that aborts", what, t.name)
 			wtxn.Abort()
@@ -419,7 +422,26 @@ func (s *Sim) IterStep(i int) {
 	case x < 85:
 		it := live[s.Rng.IntN(len(live))]
 		s.Logf("%s close %s", what, it.name)
-		it.it.Close()
+		if s.O.Ctl != nil && s.O.ForceGC && it.ownHandle && s.Rng.IntN(2) == 0 {
+			// Fault enumeration of Close(): its commit (removal of the tracker) is paused before the root is published while the
+			// collector gets time for a round; whatever the collector saw, the closed iterator's deletions must be collected later.
+			pa := s.O.Ctl.PauseAt(s.Handle+"-it", "commit.beforeRootLock")
+			closed := make(chan struct{})
+			go func() { defer close(closed); it.it.Close() }()
+			for k := 0; k < 20000 && !pa.Reached(); k++ {
+				runtime.Gosched()
+			}
+			if pa.Reached() {
+				s.closePauses++
+				for k := 0; k < 3000; k++ {
+					runtime.Gosched()
+				}
+			}
+			pa.Resume()
+			<-closed
+		} else {
+			it.it.Close()
+		}
 		keep := t.iters[:0]
 		for _, o := range t.iters {
 			if o != it {
